@@ -677,6 +677,106 @@ def run_cell(role, name, init, rng, user_send=True, op="send", switch="kexinit",
         s.close()
 
 
+def tt_frame(t):
+    """innermost paramiko frame of thread t: (file:function, line number, source line)"""
+    fr = sys._current_frames().get(t.ident)
+    while fr is not None:
+        fn = fr.f_code.co_filename
+        if os.sep + "paramiko" + os.sep in fn:
+            return ["%s:%s" % (os.path.basename(fn), fr.f_code.co_name), fr.f_lineno,
+                    linecache.getline(fn, fr.f_lineno).strip()]
+        fr = fr.f_back
+    return None
+
+
+def run_slow_exchange(role, init, rng):
+    """The peer's half of the exchange takes longer than clear_to_send_timeout while a user send is parked at the
+    gate: that send times out (by design).  Afterwards the exchange must still complete, the gate must reopen and a
+    later send must flow - the timed-out thread may not leave anything locked behind."""
+    s = Sess(role)
+    obs = {"role": role, "cell": "nothing", "init": init, "ptype": 0, "replies": False, "op": "send",
+           "tt_lock_block": None, "switch": "slow", "split": 0, "delivered_inflight": None, "delivered_user": None,
+           "offenders": [], "tt_waited": []}
+    try:
+        A, B = s.A, s.B
+        A.clear_to_send_timeout = 0.5
+        s.mark()
+        s.net.hold()
+        rk, us, threads = {}, {}, []
+
+        def renegotiate():
+            try:
+                A.renegotiate_keys()
+                rk["ok"] = True
+            except Exception as e:          # noqa
+                rk["exc"] = e
+
+        def user():
+            try:
+                s.chanA.sendall(b"parked-" + bytes(rng.randrange(97, 123) for _ in range(rng.randrange(1, 30))))
+                us["ok"] = True
+            except Exception as e:          # noqa
+                us["exc"] = e
+
+        ut = threading.Thread(target=user, daemon=True)
+
+        def at_kexinit():
+            ut.start()
+            _wait(lambda: any(not tt for t, tt, _, _ in s.gate()), 3.0)
+
+        A.packetizer.c11_kexinit_hook = at_kexinit
+        if init == "explicit":
+            t1 = threading.Thread(target=renegotiate, daemon=True)
+            t1.start()
+            threads.append(t1)
+        else:
+            A.completion_event = threading.Event()
+            A.packetizer._trigger_rekey()
+        if not _wait(lambda: 20 in [t for t, _ in s.out_trace()]):
+            raise RuntimeError("A did not send KEXINIT")
+        _wait(lambda: ut.ident is not None, 3.0)
+        ut.join(0.5 + 3.0)          # the parked send gives up after clear_to_send_timeout
+        obs["parked_send"] = "still waiting" if ut.is_alive() else ("ok" if us.get("ok") else repr(us.get("exc")))
+        s.net.release()             # ... and only now does the peer's half arrive
+
+        def finished():
+            return (21 in s.in_trace() and 21 in [t for t, _ in s.out_trace()]) or not A.is_active() \
+                or not B.is_active()
+
+        obs["finished"] = _wait(finished, 3.0)
+        if not obs["finished"]:
+            f1 = tt_frame(A)
+            time.sleep(0.15)
+            f2 = tt_frame(A)
+            obs["transport_thread_at"] = f1 if f1 == f2 else [f1, f2]
+        for t in threads:
+            t.join(1.0 if not obs["finished"] else 3.0)
+        obs["threads_left"] = sum(1 for t in threads if t.is_alive())
+        tr = s.out_trace()
+        obs["out"] = [t for t, _ in tr]
+        obs["offenders"] = offenders(tr)
+        obs["gate"] = s.gate()
+        obs["tt_waited"] = [(t, k) for t, tt, flag, k in s.gate() if tt and not flag]
+        obs["rekey_done"] = 21 in s.in_trace() and 21 in obs["out"]
+        obs["a_alive"], obs["b_alive"] = A.is_active(), B.is_active()
+        obs["a_exc"], obs["b_exc"] = repr(A.saved_exception), repr(B.saved_exception)
+        obs["renegotiate"] = "ok" if rk.get("ok") else repr(rk.get("exc")) if init == "explicit" else "n/a"
+        obs["user"] = "ok"
+        if obs["rekey_done"] and obs["a_alive"] and obs["b_alive"]:
+            later = b"later-" + bytes(rng.randrange(97, 123) for _ in range(rng.randrange(1, 30)))
+
+            def send_later():
+                s.chanA.sendall(later)
+                return _recvn(s.chanB, len(later)) == later
+
+            st, v = with_watchdog(send_later, 4.0)
+            obs["delivered_user"] = st == "ok" and bool(v)
+            obs["later_send"] = st if st != "exc" else repr(v)
+        return obs
+    finally:
+        s.close()
+
+
 def run_back2back(role, rng):
     """renegotiate_keys() twice back to back: the second call is issued the moment the first one can return, i.e.
     when completion_event is set.  Switch point: our own Event object installed as transport.completion_event; its
@@ -794,6 +894,22 @@ def judge(ctx, obs):
             "switch": obs.get("switch", "kexinit"), "split": obs.get("split", 0),
             "keepalive": bool(obs.get("keepalive")) and obs["cell"] != "keepalive-tick"}
     p = obs["ptype"]
+    if obs.get("switch") == "slow" and not obs["offenders"] and not obs["tt_waited"]:
+        if "timed out" not in obs.get("parked_send", ""):
+            ctx.fail("parked-send-did-not-time-out", "a user send parked behind an exchange longer than "
+                     "clear_to_send_timeout did not raise", case=case, observed={"parked_send": obs.get("parked_send")})
+        if not (obs["rekey_done"] and obs["a_alive"] and obs["b_alive"]):
+            ctx.fail("exchange-cannot-complete-after-user-send-timeout",
+                     "after a user send timed out at the gate the re-exchange can no longer complete: the transport "
+                     "thread is stuck behind something the timed-out thread left locked",
+                     case=case, expected="NEWKEYS both ways once the peer's half arrives, gate reopened",
+                     observed={k: obs.get(k) for k in ("out", "transport_thread_at", "parked_send", "rekey_done",
+                                                       "a_alive", "a_exc", "renegotiate")})
+        elif obs["delivered_user"] is False:
+            ctx.fail("later-send-blocked-after-user-send-timeout",
+                     "a send issued after the exchange completed did not get through",
+                     case=case, observed={"out": obs["out"], "later_send": obs.get("later_send")})
+        return
     if obs.get("tt_lock_block"):
         ctx.fail("transport-thread-blocked-on-lock-held-across-gated-send",
                  "during own re-key the transport thread is blocked in a handler on a lock that a user thread holds "
@@ -888,6 +1004,8 @@ def guarded_cell(ctx, role, name, init, rng, op="send", switch="kexinit", split=
     def go():
         if init == "back2back":
             box["obs"] = run_back2back(role, rng)
+        elif switch == "slow":
+            box["obs"] = run_slow_exchange(role, init, rng)
         else:
             box["obs"] = run_cell(role, name, init, rng, op=op, switch=switch, split=split, keepalive=keepalive)
 
@@ -919,7 +1037,9 @@ def run(ctx):
                 "thread calls shutdown_write() / close() while the peer's WINDOW_ADJUST / EOF / CLOSE / data for the "
                 "channel is in flight; 4 cells with the user thread stopped between gate and write when the exchange "
                 "starts; 2 cells with two renegotiate_keys back to back, the second inside the first one's "
-                "_parse_newkeys; 2 cells where the renegotiate_keys caller gets control back from the KEXINIT write only "
+                "_parse_newkeys; 2 cells (4 thorough) where the peer's half of the exchange arrives only after a parked "
+                "user send has timed out at the gate (the exchange must still complete and a later send must flow); "
+                "2 cells where the renegotiate_keys caller gets control back from the KEXINIT write only "
                 "after the peer's KEXINIT was dispatched; 2 cells (6 thorough) where the user thread calls "
                 "open_channel during the exchange with OPEN_FAILURE / data / CHANNEL_OPEN in flight; 2 cells (8 thorough) "
                 "with keepalives enabled and a packet arriving in two pieces 0.7 s "
@@ -972,6 +1092,9 @@ def run(ctx):
         # a user thread opens a channel during own re-key while a message whose handler needs Transport.lock crosses
         for name in (("open-failure-in", "data", "channel-open") if ctx.thorough else ("open-failure-in",)):
             plan.append((role, name, rng.choice(["explicit", "threshold"]), "open_channel", "kexinit", 0))
+        # the exchange outlasts clear_to_send_timeout with a user send parked at the gate
+        for init in (("explicit", "threshold") if ctx.thorough else (rng.choice(["explicit", "threshold"]),)):
+            plan.append((role, "nothing", init, "send", "slow", 0))
     plan = [x + (False,) for x in plan]
     for role in ("client", "server"):
         plan.append((role, "nothing", "back2back", "send", "completion", 0, False))
